@@ -202,7 +202,13 @@ class Driver:
         exe = os.path.join(LEAN, '.lake', 'build', 'bin', 'driver')
         if not os.path.exists(exe):
             raise Infra('model driver is not built')
-        self.p = subprocess.Popen([exe], stdin=subprocess.PIPE, stdout=subprocess.PIPE, text=True, bufsize=1)
+        def _die_with_parent():
+            try:
+                import ctypes, signal
+                ctypes.CDLL('libc.so.6').prctl(1, signal.SIGKILL)      # PR_SET_PDEATHSIG
+            except Exception:
+                pass
+        self.p = subprocess.Popen([exe], stdin=subprocess.PIPE, stdout=subprocess.PIPE, text=True, bufsize=1, preexec_fn=_die_with_parent)
         self.lines = 0
 
     def ask(self, obj):
